@@ -216,7 +216,10 @@ def same_components(adj1, adj2):
 
 
 def run_nbs(fn, x, y, p, rng):
-    return fn(x.copy(), y.copy(), p['thresh'], k=p['k'], tail=p['tail'], paired=p['paired'], seed=rng)
+    xa, ya = x.copy(), y.copy()
+    if p.get('layout') == 'F':
+        xa, ya = np.asfortranarray(xa), np.asfortranarray(ya)  # column-major stacks (np.dstack / MATLAB files)
+    return fn(xa, ya, p['thresh'], k=p['k'], tail=p['tail'], paired=p['paired'], seed=rng)
 
 
 def execute(case, mode, fn=None, label='nbs_bct'):
@@ -359,6 +362,8 @@ class _Scn(object):
         x, y, paired, meta = gen_stacks(rnd, self.nmax)
         p = {'thresh': rnd.choice((1.0, 1.5, 2.0, 2.5, 3.0)) + rnd.choice((0.0, 0.013, 0.0271)) if rnd.random() < 0.9 else 0, 'k': rnd.randint(5, 40),
              'tail': rnd.choice(('both', 'left', 'right')), 'paired': paired}
+        if rnd.random() < 0.1:
+            p['layout'] = 'F'
         pol = rewire.pick_policy(rnd)
         if pol['name'] != 'fair':
             pol = dict(pol, rate=rnd.choice((0.1, 0.3, 0.6)), burst=rnd.choice((1, 2, 3)), site_frac=1.0)
